@@ -39,16 +39,16 @@ type Finding struct {
 
 // Rule accumulates what one rule looked at and what it found.
 type Rule struct {
-	ID          string   `json:"id"`
-	Subject     string   `json:"subject"` // S1 / S2
-	Desc        string   `json:"desc"`
-	Obligations int      `json:"obligations"`
-	Discharged  int      `json:"discharged"`
-	Floor       int      `json:"floor"`
-	Justified   int      `json:"justified_by_table,omitempty"`
-	Analysed    []string `json:"analysed,omitempty"`
-	Samples     []string `json:"samples,omitempty"`
-	Notes       []string `json:"notes,omitempty"`
+	ID          string    `json:"id"`
+	Subject     string    `json:"subject"` // S1 / S2
+	Desc        string    `json:"desc"`
+	Obligations int       `json:"obligations"`
+	Discharged  int       `json:"discharged"`
+	Floor       int       `json:"floor"`
+	Justified   int       `json:"justified_by_table,omitempty"`
+	Analysed    []string  `json:"analysed,omitempty"`
+	Samples     []string  `json:"samples,omitempty"`
+	Notes       []string  `json:"notes,omitempty"`
 	Findings    []Finding `json:"findings,omitempty"`
 
 	mu      sync.Mutex
@@ -238,10 +238,10 @@ type Prog struct {
 	ByPath  map[string]*ssa.Package
 	PkgBy   map[string]*packages.Package
 
-	cgOnce sync.Once
-	cha    *callgraph.Graph
+	cgOnce  sync.Once
+	cha     *callgraph.Graph
 	vtaOnce sync.Once
-	vta    *callgraph.Graph
+	vta     *callgraph.Graph
 }
 
 // Program builds (cached) SSA for the given patterns.
